@@ -50,6 +50,31 @@ reg('C08', 'harness.sync', design_ref='6/C08',
     outside='longer sequences; file/dir/sql archives behind the cache (their dict refinement is C03); dump/load with several key arguments at once',
     stubs=[], assumptions=['keys and values are opaque atoms (arbitrary hashable objects)', 'drop()/archived(True) with no archive at all may raise ValueError (the statement does not forbid it)'],
     expect_labels=['C08:memory', 'C08:archive', 'C08:flag', 'C08:null-empty'])
+KEY_ASSUME = ['argument values and default objects are opaque atoms (arbitrary hashable, non-fast-type objects different from every literal)',
+              'signature shapes are concrete programs generated by exec: 0-3 positional-or-keyword parameters with any suffix defaulted, optional *args, 0-2 keyword-only parameters with/without default, optional **kw (quick: 23 representative shapes; thorough: all 336)',
+              'call B uses the canonical spelling; all pairs of spellings follow by transitivity through it',
+              'serialising keymaps run over the structural str/repr/digest/pickle stubs: no digest collisions, pickle injective and order-preserving']
+KEY_STUBS = ['klepto.crypto str/repr/hashlib/dumps/__hash -> structural injective versions (stubs/cryptoshim.py)']
+reg('C09', 'harness.keys', design_ref='6/C09',
+    bounds={'quick': '23 shapes x 7 keymaps (+ klepto.keygen): call A in every spelling (positional count, omitted defaults, keyword order, 0-2 extra positionals, 0-2 extra keywords) vs canonical call B',
+            'thorough': 'all 336 shapes x 11 keymaps'},
+    outside='more than 3 positional / 2 keyword-only parameters, more than 2 extras; bound methods and partials; concrete fast-type argument values',
+    stubs=KEY_STUBS, assumptions=KEY_ASSUME, expect_labels=['C09:canonical'])
+reg('C10', 'harness.keys', design_ref='6/C10',
+    bounds={'quick': 'as C09 quick, information-preserving configurations only (flat keys without sentinel are skipped for shapes with *args, as the statement says)', 'thorough': 'as C09 thorough'},
+    outside='as C09; typed=True separation of 1/1.0/True is checked on concrete witnesses by harness.typed',
+    stubs=KEY_STUBS, assumptions=KEY_ASSUME, expect_labels=['C10:distinct'])
+reg('C11', 'harness.keys', design_ref='6/C11',
+    bounds={'quick': '23 shapes x ignore specifications of <= 3 elements drawn from parameter names, indices, \'*\', \'**\' (a selection) x {raw, str} keymaps + klepto.keygen',
+            'thorough': 'all shapes x all specifications of <= 3 elements x 4 keymaps'},
+    outside='presence/absence of an extra argument that is ignored by index or by name (not specified by the statement: neither direction demanded); instance removal for methods',
+    stubs=KEY_STUBS, assumptions=KEY_ASSUME, expect_labels=['C11:merges', 'C11:discriminates'])
+reg('C17', 'harness.keys', design_ref='6/C17',
+    bounds={'quick': '23 shapes x ignore specifications (<= 3 elements) x 5 keymaps: the key of one call computed under two independent symbolic iteration orders of every set built in klepto._inspect/klepto.keymaps',
+            'thorough': 'all shapes x all specifications x 8 keymaps'},
+    outside='that archived results are then found by a later OS process (C04, excluded there); process state other than set iteration order and keyword order',
+    stubs=KEY_STUBS + ['name `set` in klepto._inspect / klepto.keymaps -> set subclass with symbolic iteration order (set displays would bypass it; none occur in the anchored code)'],
+    assumptions=KEY_ASSUME, expect_labels=['C17:stable'])
 
 _T = 'bounded symbolic execution of the real code (ksym proxies on CPython), branch and obligation queries decided by z3, closed path tree, concrete replay of counterexamples'
 _N = 'trusted: CPython, z3 5.1, the ksym proxies (constant hash + solver-decided equality) and the listed stubs; atoms stand for arbitrary hashable non-fast-type objects; bounds as in evidence.coverage.bounds; no claim outside them'
@@ -60,9 +85,13 @@ TEXT = {
     'C06': {'level': 'within the history bounds and for every maxsize >= 1, the set of entries that leave the real cache on each call equals the reference policy victim set computed from the statement (all RR choices explored through a symbolic random.choice)', 'note': _N, 'technique': _T},
     'C07': {'level': 'within the history bounds, every entry leaving the real memory cache is in the real archive with an equal value, archived entries never change, and every computed result stays retrievable', 'note': _N, 'technique': _T},
     'C08': {'level': 'for every sequence of operations within the bound and every equality pattern of keys/values, the real cache, both real archive objects and archived() equal the three-dict oracle written from the statement after every step', 'note': _N, 'technique': _T},
+    'C09': {'level': 'for every shape/keymap in the bound and every spelling of call A, z3 shows: keys differ => bindings differ (so equal bindings give equal keys), and the second equivalent call is a hit on a real cache', 'note': _N, 'technique': _T},
+    'C10': {'level': 'for every shape/information-preserving keymap in the bound, z3 shows: keys equal => bindings equal', 'note': _N, 'technique': _T},
+    'C11': {'level': 'for every shape/ignore specification in the bound, z3 shows keys equal <=> bindings equal outside the ignored arguments', 'note': _N, 'technique': _T},
+    'C17': {'level': 'for every shape/ignore specification/keymap in the bound, the key is invariant under every iteration order of the sets built while computing it (symbolic permutations, z3-closed)', 'note': _N, 'technique': _T},
     'C15': {'level': 'within the history bounds (calls interleaved with dump/load/clear/toggle), info() equals ground-truth counters derived from before/after snapshots of memory and archive', 'note': _N, 'technique': _T},
 }
 NOT_APPLICABLE = [
     {'property_id': p, 'reason': 'check not built yet in this session (planned in DESIGN.md §6); nothing is claimed for it so far'}
-    for p in ['C03', 'C04', 'C09', 'C10', 'C11', 'C12', 'C13', 'C14', 'C16', 'C17', 'C18', 'C19', 'C20']
+    for p in ['C03', 'C04', 'C12', 'C13', 'C14', 'C16', 'C18', 'C19', 'C20']
 ]
